@@ -136,7 +136,7 @@ pub const C28: Check = Check {
            without hash, store status, RRDP repository state with 0..300 delta-state entries and with entry counts at and around powers of two up to 2^17 (incl. 65535/65536/65537), absent/empty/odd ETags, \
            URIs at grammar edges, second-resolution times at representable extremes, serial extremes, byte strings of \
            0..100k) are written with the real write/compose functions into a buffer followed by a sentinel, then read \
-           back: decoded value must equal the written one and the reader must stand exactly at the sentinel. RRDP state \
+           back: decoded value must equal the written one and the reader must stand exactly at the sentinel; every eighth value is also read through readers that return at most 1, 7 or 31 bytes per call (short reads, as files and buffered readers produce). RRDP state \
            additionally goes through a real archive file (publish_state/update_state -> reopen -> load_state). \
            distinct = (record type, shape class) combinations",
     assumptions: &["time fields are generated at the one-second resolution the encoding has; the only record whose time \
@@ -179,6 +179,43 @@ fn roundtrip<T: PartialEq + std::fmt::Debug>(
         Err(e) => rep.violation(format!("C28/read-failed/{what}"), format!("{what}: reading back failed: {e}"), json!({"record": what, "hex": crate::pgen::hex(&buf[..written.min(400)])})),
     }
     rep.class(format!("{what}|{class}"));
+}
+
+/// A reader that hands out at most `chunk` bytes per `read` call, as a file or buffered reader may at any point.
+struct ChunkReader<'a> { data: &'a [u8], pos: usize, chunk: usize }
+
+impl<'a> std::io::Read for ChunkReader<'a> {
+    fn read(&mut self, buf: &mut [u8]) -> std::io::Result<usize> {
+        let n = buf.len().min(self.chunk).min(self.data.len() - self.pos);
+        buf[..n].copy_from_slice(&self.data[self.pos..self.pos + n]);
+        self.pos += n;
+        Ok(n)
+    }
+}
+
+/// Reads the record back through readers that return short reads.
+fn roundtrip_short_reads<T: PartialEq + std::fmt::Debug>(
+    what: &str, value: &T,
+    write: impl Fn(&T, &mut Vec<u8>) -> std::io::Result<()>,
+    read: impl Fn(&mut ChunkReader) -> Result<T, String>,
+    rep: &mut Report,
+) {
+    let mut buf = Vec::new();
+    if write(value, &mut buf).is_err() { return }
+    let written = buf.len();
+    buf.extend_from_slice(SENTINEL);
+    for chunk in [1usize, 7, 31] {
+        rep.eval();
+        let mut r = ChunkReader { data: &buf, pos: 0, chunk };
+        match read(&mut r) {
+            Ok(v) => {
+                if &v != value { rep.violation(format!("C28/value-differs/{what}/short-reads"), format!("{what}: decoded value differs from the written one when the reader returns at most {chunk} bytes per call"), json!({"record": what, "chunk": chunk})); }
+                if r.pos != written { rep.violation(format!("C28/consumed-bytes/{what}/short-reads"), format!("{what}: reader consumed {} bytes, {} were written (reads of at most {chunk} bytes)", r.pos, written), json!({"record": what, "chunk": chunk})); }
+            }
+            Err(e) => rep.violation(format!("C28/read-failed/{what}/short-reads"), format!("{what}: reading back failed when the reader returns at most {chunk} bytes per call: {e}"), json!({"record": what, "chunk": chunk})),
+        }
+        rep.class(format!("{what}|short-reads-{chunk}"));
+    }
 }
 
 fn run_c28(ctx: &mut Ctx, rep: &mut Report) {
@@ -228,7 +265,13 @@ fn run_c28(ctx: &mut Ctx, rep: &mut Report) {
             }
             rep.class("StoredStatus|any");
         }
+        if i % 8 == 0 {
+            roundtrip_short_reads("StoredPointHeader", &h, |v, w| v.write(w), |r| StoredPointHeader::read(r).map_err(|e| e.to_string()), rep);
+            roundtrip_short_reads("StoredManifest", &m, |v, w| v.write(w), |r| StoredManifest::read(r).map_err(|e| e.to_string()), rep);
+            roundtrip_short_reads("StoredObject", &o, |v, w| v.write(w), |r| StoredObject::read(r).map_err(|e| e.to_string()).and_then(|x| x.ok_or("EOF instead of object".to_string())), rep);
+        }
         let rs = gen_state(&mut rng);
+        if i % 8 == 0 { roundtrip_short_reads("RepositoryState", &rs, |v, w| v.verif_compose(w), |r| RepositoryState::verif_parse(r).map_err(|e| e.to_string()), rep); }
         let sclass = format!("etag{}lm{}deltas{}", match &rs.etag { None => 0, Some(e) if e.is_empty() => 1, _ => 2 }, rs.last_modified_ts.is_some() as u8, rs.delta_state.len().min(3));
         roundtrip("RepositoryState", sclass, &rs, |v, w| v.verif_compose(w), |r| RepositoryState::verif_parse(r).map_err(|e| e.to_string()), rep);
         // through a real archive file
